@@ -270,6 +270,12 @@ func (l *lexer) nextToken() (token, bool) {
 	return tok, closed
 }
 
+// drain consumes the remaining tokens so that the lexing goroutine exits.
+func (l *lexer) drain() {
+	for range l.tokens {
+	}
+}
+
 // lineNumber reports which line number and start of line position of a given position is on in the input
 func (l *lexer) lineNumber(pos int) (int, int) {
 	line := 1 + strings.Count(l.input[:pos], "\n")
